@@ -717,6 +717,18 @@ func render(paths [][]pstep) []string {
 	return out
 }
 
+// hasIndexStep: some path names specific list / set indices.
+func hasIndexStep(paths [][]pstep) bool {
+	for _, p := range paths {
+		for _, s := range p {
+			if s.kind == 'i' && !s.star {
+				return true
+			}
+		}
+	}
+	return false
+}
+
 func pathClasses(paths [][]pstep) (kinds map[string]bool, depth int) {
 	kinds = map[string]bool{}
 	for _, p := range paths {
@@ -970,6 +982,21 @@ func TestMask(t *testing.T) {
 				skip = fBlackReqCont
 			case w.blackLeaf && vt.Known(prop, fBlackLeaf):
 				skip = fBlackLeaf
+			}
+			if skip == "" && c.Conflict {
+				// On a conflicting set the mask the library builds depends on the order of the paths, so the
+				// walker (which follows the reference trie) cannot tell whether the shape of a listed finding
+				// is present: such sets are only used where no listed finding can apply.
+				switch {
+				case c.Black && vt.Known(prop, fBlackLeaf):
+					skip = fBlackLeaf
+				case c.Black && !zeroReq && vt.Known(prop, fBlackReqCont):
+					skip = fBlackReqCont
+				case zeroReq && vt.Known(prop, fZeroAll):
+					skip = fZeroAll
+				case hasIndexStep(paths) && vt.Known(prop, fPreCount):
+					skip = fPreCount
+				}
 			}
 			if skip != "" {
 				vt.Excluded(skip)
